@@ -10,6 +10,68 @@ Property theorems only (helpers in `Lemmas/Header.lean`).
 namespace XmppModel.Props.C12
 open XmppModel XmppModel.Xml
 
+/-! ## the header we send -/
+section header
+open XmppModel.Header
+
+/-- **Round trip.**  For every stream id, pair of addresses and language tag (any sequences
+of code points), both framings and both stream kinds, a parser that reads the printed
+header — XML declaration, start tag, quoted attribute values with entity and character
+references, namespace resolution — obtains exactly the element the arguments describe:
+the framing's stream-open element, version 1.0, the content namespace, and `id`, `to`,
+`from`, `xml:lang` with the values that were given (each present iff non-empty).  In
+particular the header is a well-formed start tag whatever quotes, ampersands or angle
+brackets the values contain.  Code points that XML cannot carry at all come back as U+FFFD
+(`fixChar`); see `C12_header_exact` for valid ones. -/
+theorem C12_header_roundtrip (a : HdrArgs) : readHeader (printHeader a) = some (expected a) := by
+  unfold readHeader
+  rw [readTag_printHeader, Option.map_some, resolve_rawAttrs]
+
+theorem map_fixChar_valid (v : Str) (h : ∀ c ∈ v, xmlChar c = true) : v.map fixChar = v := by
+  induction v with
+  | nil => rfl
+  | cons c v ih =>
+    simp only [List.map_cons, fixChar_of_xmlChar (h c (by simp)), ih (fun c' h' => h c' (by simp [h']))]
+
+/-- for values made of XML characters (every valid address, every id the library generates,
+every language tag) the peer recovers the values themselves -/
+theorem C12_header_exact (a : HdrArgs) (hid : ∀ c ∈ a.id, xmlChar c = true)
+    (hto : ∀ c ∈ a.to, xmlChar c = true) (hfrom : ∀ c ∈ a.src, xmlChar c = true)
+    (hlang : ∀ c ∈ a.lang, xmlChar c = true) :
+    ∃ st, readHeader (printHeader a) = some st ∧
+      st.name = (if a.ws then ⟨nsFraming, kOpen⟩ else ⟨nsStream, kStream⟩) ∧
+      (⟨[], kVersion⟩, kOneZero) ∈ st.attrs ∧
+      (⟨[], kXmlns⟩, if a.ws then nsFraming else contentNS a.s2s) ∈ st.attrs ∧
+      (a.id ≠ [] → (⟨[], kId⟩, a.id) ∈ st.attrs) ∧ (a.to ≠ [] → (⟨[], kTo⟩, a.to) ∈ st.attrs) ∧
+      (a.src ≠ [] → (⟨[], kFrom⟩, a.src) ∈ st.attrs) ∧ (a.lang ≠ [] → (⟨nsXML, kLang⟩, a.lang) ∈ st.attrs) ∧
+      st.attrs.length = (if a.ws then 2 else 3) + (if a.id = [] then 0 else 1) + (if a.to = [] then 0 else 1) +
+        (if a.src = [] then 0 else 1) + (if a.lang = [] then 0 else 1) := by
+  refine ⟨expected a, C12_header_roundtrip a, ?_⟩
+  cases hws : a.ws <;>
+    simp only [expected, hws, Bool.false_eq_true, if_false, if_true, optAttr, map_fixChar_valid _ hid,
+      map_fixChar_valid _ hto, map_fixChar_valid _ hfrom, map_fixChar_valid _ hlang] <;>
+    by_cases h1 : a.id = [] <;> by_cases h2 : a.to = [] <;> by_cases h3 : a.src = [] <;>
+    by_cases h4 : a.lang = [] <;>
+    simp [h1, h2, h3, h4]
+
+-- the model's printer produces the bytes of the Go format strings
+set_option maxRecDepth 8000 in
+example : printHeader ⟨false, false, [], "a".toList, "b'c".toList, []⟩ =
+    "<?xml version=\"1.0\" encoding=\"UTF-8\"?><stream:stream xmlns='jabber:client' xmlns:stream='http://etherx.jabber.org/streams' version='1.0' to='a' from='b&#39;c'>".toList := by
+  rfl
+
+set_option maxRecDepth 8000 in
+example : printHeader ⟨true, true, "i<".toList, [], [], "e&n".toList⟩ =
+    "<open xmlns=\"urn:ietf:params:xml:ns:xmpp-framing\" version='1.0' id='i&lt;' xml:lang='e&amp;n'/>".toList := by
+  rfl
+
+-- the unescaped header of the unrepaired code is not well-formed for the reader either
+set_option maxRecDepth 8000 in
+example : readHeader "<stream:stream xmlns='jabber:client' xmlns:stream='http://etherx.jabber.org/streams' version='1.0' from='a@b/x'y'>".toList = none := by
+  decide
+
+end header
+
 /-! ## incoming headers: acceptance -/
 section accept
 open XmppModel.StreamNeg
